@@ -1,6 +1,14 @@
 // C15/C16 correspondence harness: the real counting_set count cache and the real reducing
 // adapter (map and array targets, reduce_by_key_map), driven by a script that the check
-// generates from the seed.  args: <mode> <scriptfile> [opid]
+// generates from the seed.  args: <mode> <scriptfile> [opid] [subcomm] [split]
+//   subcomm 0: the scenario runs on the world communicator only
+//           1: first on a sub-communicator (MPI_Comm_split of MPI_COMM_WORLD), then on the world, in the same process
+//           2: first on the world, then on the sub-communicator
+//   split   0: colour = parity of the on-node index   1: colour = parity of the node (one node: lower / upper half)
+//   Both runs go through the same template instantiations.  On a communicator of size g the script lines of ranks >= g
+//   and handler sends to ranks >= g are not issued (a forward to a rank >= g is dropped).
+//   Script line `T <J>`: TWO containers of the same type are alive at once on the communicator; key k belongs to
+//   container (k >> 20) >= J (disjoint key sets, same cache slots), operations interleave as the script says.
 //   mode  cset | rmap | rarr | rbkvec | rbkbag
 //   opid  0 sum  1 max  2 xor  |  operators for which the value-initialised T{} (0) is NOT neutral:
 //         3 min  4 product mod 1000003  5 bitwise and  6 max of the values read as signed 64-bit (negatives)
@@ -16,7 +24,8 @@
 //   sb / se         harness's own comm.async (not a container send)  bb / be   barrier
 //   pk k v / uk k v the instrumented key (cset) / value (reduce) is serialised / deserialised
 //   S / R           comm::async packed-phase begins (hook as+) / returns (hook as-)
-//   FB / FE         a pre-barrier callback begins / ends (hooks cb+ / cb-)
+//   FB / FE         a pre-barrier callback begins / ends (hooks cb+ / cb-)      RC   one is registered (hook rcb)
+//   ph <name> <commrank> <commsize>   a scenario run begins on communicator <name> (sub | world); also written to the out file
 //   X+ / X-         comm executes a received message (hooks ex+ / ex-)
 // Results go to the per-rank out file: own, snap, count, countall, size, forall, topk, gather, kv.
 #define HC_OWN_HOOK
@@ -32,7 +41,8 @@
 #include <functional>
 
 static bool g_trace = false;
-static ygm::comm* g_world = nullptr;
+static ygm::comm* g_world = nullptr;   // the communicator the scenario currently runs on
+static uint64_t g_twinJ = 0;           // > 0: two containers, key k belongs to container (k >> 20) >= g_twinJ
 static int g_opid = 0;
 static const uint64_t NOKEY = ~0ULL, BADKEY = ~0ULL - 1;
 
@@ -41,6 +51,7 @@ extern "C" void ygm_verif_hook(const char* tag, long a, long b, long c) {
   if (tag[0] == 'a' && tag[1] == 's') simmpi_log(tag[2] == '+' ? "S" : "R");
   else if (tag[0] == 'c' && tag[1] == 'b') simmpi_log(tag[2] == '+' ? "FB" : "FE");
   else if (tag[0] == 'e' && tag[1] == 'x') simmpi_log(tag[2] == '+' ? "X+" : "X-");
+  else if (tag[0] == 'r' && tag[1] == 'c' && tag[2] == 'b') simmpi_log("RC");   // a pre-barrier callback is registered
 }
 static void evk(const char* t, uint64_t k, uint64_t v) {
   if (!g_trace) return;
@@ -88,50 +99,54 @@ struct Red {   // stateless (the library calls it through a null pointer); the o
 };
 
 struct op_t { int rank; char kind; long d; uint64_t k, v; long d2; uint64_t k2, v2; };
-struct script_t { std::vector<uint64_t> universe; uint64_t len = 0; std::vector<op_t> ops; };
-static script_t read_script(const char* path, int me) {
+struct script_t { std::vector<uint64_t> universe; uint64_t len = 0; uint64_t twinJ = 0; std::vector<op_t> all; std::vector<op_t> ops; };
+static script_t read_script(const char* path) {
   script_t s; std::ifstream in(path); std::string line;
   while (std::getline(in, line)) {
     std::istringstream ss(line); std::string w; ss >> w;
     if (w.empty()) continue;
     if (w == "U") { uint64_t k; while (ss >> k) s.universe.push_back(k); continue; }
     if (w == "L") { ss >> s.len; continue; }
+    if (w == "T") { ss >> s.twinJ; continue; }
     op_t o{}; o.rank = atoi(w.c_str()); std::string kd; ss >> kd; o.kind = kd[0]; o.d2 = -1;
     if (o.kind == 'i') ss >> o.k >> o.v;
     else if (o.kind == 'h') ss >> o.d >> o.k >> o.v >> o.d2 >> o.k2 >> o.v2;
-    if (o.rank == me) s.ops.push_back(o);
+    s.all.push_back(o);
   }
   return s;
 }
+static int sel(uint64_t k) { return g_twinJ && (k >> 20) >= g_twinJ ? 1 : 0; }
+static std::string u(uint64_t x) { return std::to_string((unsigned long long)x); }
 
-// ---- generic script interpreter; Ins(k, v) performs the container call
-template <typename Ptr, typename Handler>
-static void run_script(const script_t& s, Ptr p, Handler, std::function<void(int)> after_barrier) {
-  int phase = 0;
+// ---- generic script interpreter over the current communicator; H::insert performs the container call
+template <typename Ptr, typename H>
+static void run_script(const script_t& s, Ptr pa, Ptr pb, H, std::function<void(int)> after_barrier) {
+  int phase = 0, size = g_world->size();
   for (const op_t& o : s.ops) {
-    if (o.kind == 'i') { Handler::insert(p, o.k, o.v); }
-    else if (o.kind == 'h') { evs("sb"); g_world->async((int)o.d, Handler(), p, o.k, o.v, (int)o.d2, o.k2, o.v2); evs("se"); }
+    if (o.kind == 'i') { H::insert(sel(o.k) ? pb : pa, o.k, o.v); }
+    else if (o.kind == 'h') { if (o.d < size) { evs("sb"); g_world->async((int)o.d, H(), pa, pb, o.k, o.v, (int)o.d2, o.k2, o.v2); evs("se"); } }
     else if (o.kind == 'b') { evs("bb"); g_world->barrier(); evs("be"); after_barrier(phase++); }
   }
+}
+template <typename Ptr, typename H>
+static void handler_body(Ptr pa, Ptr pb, uint64_t k, uint64_t v, int d2, uint64_t k2, uint64_t v2) {
+  evs("hb"); H::insert(sel(k) ? pb : pa, k, v);
+  if (d2 >= 0 && d2 < g_world->size()) { evs("sb"); g_world->async(d2, H(), pa, pb, k2, v2, -1, (uint64_t)0, (uint64_t)0); evs("se"); }
+  evs("he");
 }
 
 using CS = ygm::container::counting_set<HK>;
 struct cs_handler {
   static void insert(ygm::ygm_ptr<CS> p, uint64_t k, uint64_t v) { evk("ib", k, 1); p->async_insert(HK(k)); evs("ie"); }
-  void operator()(ygm::ygm_ptr<CS> p, uint64_t k, uint64_t v, int d2, uint64_t k2, uint64_t v2) {
-    evs("hb"); insert(p, k, v);
-    if (d2 >= 0) { evs("sb"); g_world->async(d2, cs_handler(), p, k2, v2, -1, (uint64_t)0, (uint64_t)0); evs("se"); }
-    evs("he");
+  void operator()(ygm::ygm_ptr<CS> pa, ygm::ygm_ptr<CS> pb, uint64_t k, uint64_t v, int d2, uint64_t k2, uint64_t v2) {
+    handler_body<ygm::ygm_ptr<CS>, cs_handler>(pa, pb, k, v, d2, k2, v2);
   }
 };
-
 template <typename RA>
 struct ra_handler {
   static void insert(ygm::ygm_ptr<RA> p, uint64_t k, uint64_t v) { evk("ib", k, v); p->async_reduce(k, HV(v, k)); evs("ie"); }
-  void operator()(ygm::ygm_ptr<RA> p, uint64_t k, uint64_t v, int d2, uint64_t k2, uint64_t v2) {
-    evs("hb"); insert(p, k, v);
-    if (d2 >= 0) { evs("sb"); g_world->async(d2, ra_handler<RA>(), p, k2, v2, -1, (uint64_t)0, (uint64_t)0); evs("se"); }
-    evs("he");
+  void operator()(ygm::ygm_ptr<RA> pa, ygm::ygm_ptr<RA> pb, uint64_t k, uint64_t v, int d2, uint64_t k2, uint64_t v2) {
+    handler_body<ygm::ygm_ptr<RA>, ra_handler<RA>>(pa, pb, k, v, d2, k2, v2);
   }
 };
 
@@ -140,62 +155,80 @@ struct ra_handler {
 static uint64_t array_init() {
   switch (g_opid) { case 3: return 1ULL << 63; case 4: return 1; case 5: return ~0ULL; case 6: return 1ULL << 63; default: return 0; }
 }
-static std::string u(uint64_t x) { return std::to_string((unsigned long long)x); }
 
-extern "C" int sim_main(int argc, char** argv) {
-  ygm::comm world(MPI_COMM_WORLD);
-  g_world = &world;
-  hc::open_out(world.rank());
-  std::string mode = argc > 1 ? argv[1] : "cset";
-  script_t s = read_script(argv[2], world.rank());
-  g_opid = argc > 3 ? atoi(argv[3]) : 0;
+static void report_cset(CS& cs, const script_t& s, int c, ygm::comm& comm) {
+  hc::out("cont " + std::to_string(c));
+  std::vector<uint64_t> uni; for (uint64_t k : s.universe) if (sel(k) == c) uni.push_back(k);
+  for (uint64_t k : uni) hc::out("count " + u(k) + " " + u(cs.count(HK(k))));
+  hc::out("countall " + u(cs.count_all()));
+  hc::out("size " + u(cs.size()));
+  { std::ostringstream o; o << "forall"; cs.for_all([&o](const HK& k, size_t& cnt) { o << " " << k.id << ":" << cnt; }); hc::out(o.str()); }
+  { auto t = cs.topk(3, [](const std::pair<HK, size_t>& a, const std::pair<HK, size_t>& b) { return a.second > b.second || (a.second == b.second && a.first < b.first); });
+    std::ostringstream o; o << "topk"; for (auto& kv : t) o << " " << kv.first.id << ":" << kv.second; hc::out(o.str()); }
+  { std::vector<HK> keys; for (size_t i = 0; i < uni.size(); ++i) if ((i + comm.rank()) % 2 == 0) keys.push_back(HK(uni[i]));
+    auto g = cs.all_gather(keys);
+    std::ostringstream o; o << "gather"; for (auto& kv : g) o << " " << kv.first.id << ":" << kv.second; hc::out(o.str()); }
+}
 
+// ---- one complete scenario on communicator `comm` (containers are created and destroyed inside)
+static void scenario(ygm::comm& comm, const std::string& name, const std::string& mode, script_t& s) {
+  g_world = &comm;
+  g_twinJ = s.twinJ;
+  s.ops.clear();
+  for (const op_t& o : s.all) if (o.rank == comm.rank()) s.ops.push_back(o);
+  { std::string l = "ph " + name + " " + std::to_string(comm.rank()) + " " + std::to_string(comm.size()); simmpi_log(l.c_str()); hc::out(l); }
+  const bool twin = s.twinJ > 0;
   if (mode == "cset") {
-    CS cs(world);
-    auto pcs = cs.get_ygm_ptr();
-    for (uint64_t k : s.universe) hc::out("own " + u(k) + " " + std::to_string(cs.is_mine(HK(k)) ? world.rank() : -1));
+    CS csa(comm);
+    std::unique_ptr<CS> csb_owner; if (twin) csb_owner.reset(new CS(comm));
+    CS& csb = twin ? *csb_owner : csa;
+    for (uint64_t k : s.universe) hc::out("own " + u(k) + " " + std::to_string(csa.is_mine(HK(k)) ? comm.rank() : -1));
     g_trace = true;   // before the barrier: a rank still inside it already executes handlers of faster ranks
-    world.barrier();
-    run_script(s, pcs, cs_handler(), [&](int ph) { hc::out("snap " + std::to_string(ph) + " " + u(cs.count_all())); });
+    comm.barrier();
+    run_script(s, csa.get_ygm_ptr(), csb.get_ygm_ptr(), cs_handler(), [&](int ph) {
+      hc::out("snap " + std::to_string(ph) + " " + u(csa.count_all()) + " " + u(twin ? csb.count_all() : 0)); });
     g_trace = false;
-    world.barrier();
-    for (uint64_t k : s.universe) hc::out("count " + u(k) + " " + u(cs.count(HK(k))));
-    hc::out("countall " + u(cs.count_all()));
-    hc::out("size " + u(cs.size()));
-    { std::ostringstream o; o << "forall"; cs.for_all([&o](const HK& k, size_t& c) { o << " " << k.id << ":" << c; }); hc::out(o.str()); }
-    { auto t = cs.topk(3, [](const std::pair<HK, size_t>& a, const std::pair<HK, size_t>& b) { return a.second > b.second || (a.second == b.second && a.first < b.first); });
-      std::ostringstream o; o << "topk"; for (auto& kv : t) o << " " << kv.first.id << ":" << kv.second; hc::out(o.str()); }
-    { std::vector<HK> keys; for (size_t i = 0; i < s.universe.size(); ++i) if ((i + world.rank()) % 2 == 0) keys.push_back(HK(s.universe[i]));
-      auto g = cs.all_gather(keys);
-      std::ostringstream o; o << "gather"; for (auto& kv : g) o << " " << kv.first.id << ":" << kv.second; hc::out(o.str()); }
+    comm.barrier();
+    report_cset(csa, s, 0, comm);
+    if (twin) report_cset(csb, s, 1, comm);
   } else if (mode == "rmap") {
-    ygm::container::map<uint64_t, HV> m(world);
-    for (uint64_t k : s.universe) hc::out("own " + u(k) + " " + std::to_string(m.owner(k)));
+    using M = ygm::container::map<uint64_t, HV>;
+    M ma(comm); std::unique_ptr<M> mb_owner; if (twin) mb_owner.reset(new M(comm));
+    M& mb = twin ? *mb_owner : ma;
+    for (uint64_t k : s.universe) hc::out("own " + u(k) + " " + std::to_string(ma.owner(k)));
     // cf_barrier: no rank starts the next phase before every rank has listed its contents
-    auto dump = [&](const std::string& tag) { std::ostringstream o; o << tag; m.for_all([&o](const uint64_t& k, HV& v) { o << " " << k << ":" << v.val << ":" << v.key; }); hc::out(o.str()); world.cf_barrier(); };
+    auto dump1 = [&](M& m, const std::string& tag) { std::ostringstream o; o << tag; m.for_all([&o](const uint64_t& k, HV& v) { o << " " << k << ":" << v.val << ":" << v.key; }); hc::out(o.str()); };
+    auto dump = [&](const std::string& tag) { dump1(ma, tag); if (twin) dump1(mb, tag); comm.cf_barrier(); };
     {
-      auto ra = ygm::container::detail::make_reducing_adapter(m, Red());
+      auto ra = ygm::container::detail::make_reducing_adapter(ma, Red());
       using RA = decltype(ra);
-      auto pra = world.make_ygm_ptr(ra);
+      std::unique_ptr<RA> rb_owner; if (twin) rb_owner.reset(new RA(mb, Red()));
+      RA& rb = twin ? *rb_owner : ra;
+      auto pra = comm.make_ygm_ptr(ra); auto prb = comm.make_ygm_ptr(rb);
       g_trace = true;
-      world.barrier();
-      run_script(s, pra, ra_handler<RA>(), [&](int ph) { dump("snap " + std::to_string(ph)); });
+      comm.barrier();
+      run_script(s, pra, prb, ra_handler<RA>(), [&](int ph) { dump("snap " + std::to_string(ph)); });
       evs("bb");
     }   // ~reducing_adapter: barrier
     evs("be");
     g_trace = false;
     dump("kv");
   } else if (mode == "rarr") {
-    ygm::container::array<HV> a(world, (size_t)s.len, HV(array_init(), NOKEY));
-    for (uint64_t k : s.universe) hc::out("own " + u(k) + " " + std::to_string(a.owner(k)));
-    auto dump = [&](const std::string& tag) { std::ostringstream o; o << tag; a.for_all([&o](const size_t k, HV& v) { if (v.key != NOKEY) o << " " << k << ":" << v.val << ":" << v.key; }); hc::out(o.str()); world.cf_barrier(); };
+    using A = ygm::container::array<HV>;
+    A aa(comm, (size_t)s.len, HV(array_init(), NOKEY)); std::unique_ptr<A> ab_owner; if (twin) ab_owner.reset(new A(comm, (size_t)s.len, HV(array_init(), NOKEY)));
+    A& ab = twin ? *ab_owner : aa;
+    for (uint64_t k : s.universe) hc::out("own " + u(k) + " " + std::to_string(aa.owner(k)));
+    auto dump1 = [&](A& a, const std::string& tag) { std::ostringstream o; o << tag; a.for_all([&o](const size_t k, HV& v) { if (v.key != NOKEY) o << " " << k << ":" << v.val << ":" << v.key; }); hc::out(o.str()); };
+    auto dump = [&](const std::string& tag) { dump1(aa, tag); if (twin) dump1(ab, tag); comm.cf_barrier(); };
     {
-      auto ra = ygm::container::detail::make_reducing_adapter(a, Red());
+      auto ra = ygm::container::detail::make_reducing_adapter(aa, Red());
       using RA = decltype(ra);
-      auto pra = world.make_ygm_ptr(ra);
+      std::unique_ptr<RA> rb_owner; if (twin) rb_owner.reset(new RA(ab, Red()));
+      RA& rb = twin ? *rb_owner : ra;
+      auto pra = comm.make_ygm_ptr(ra); auto prb = comm.make_ygm_ptr(rb);
       g_trace = true;
-      world.barrier();
-      run_script(s, pra, ra_handler<RA>(), [&](int ph) { dump("snap " + std::to_string(ph)); });
+      comm.barrier();
+      run_script(s, pra, prb, ra_handler<RA>(), [&](int ph) { dump("snap " + std::to_string(ph)); });
       evs("bb");
     }
     evs("be");
@@ -204,23 +237,49 @@ extern "C" int sim_main(int argc, char** argv) {
   } else {   // reduce_by_key_map over a local vector or a distributed bag of (key, value) pairs
     std::vector<std::pair<uint64_t, HV>> vec;
     for (const op_t& o : s.ops) if (o.kind == 'i') vec.push_back({o.k, HV(o.v, o.k)});
-    for (uint64_t k : s.universe) hc::out("own " + u(k) + " " + std::to_string((int)(k % (uint64_t)world.size())));
+    for (uint64_t k : s.universe) hc::out("own " + u(k) + " " + std::to_string((int)(k % (uint64_t)comm.size())));
     auto dump = [&](ygm::container::map<uint64_t, HV>& m) { std::ostringstream o; o << "kv"; m.for_all([&o](const uint64_t& k, HV& v) { o << " " << k << ":" << v.val << ":" << v.key; }); hc::out(o.str()); hc::out("size " + u(m.size())); };
     if (mode == "rbkvec") {
       g_trace = true;
-      auto res = ygm::container::reduce_by_key_map<uint64_t, HV>(vec, Red(), world);
+      auto res = ygm::container::reduce_by_key_map<uint64_t, HV>(vec, Red(), comm);
       g_trace = false;
       dump(res);
     } else {
-      ygm::container::bag<std::pair<uint64_t, HV>> bag(world);
+      ygm::container::bag<std::pair<uint64_t, HV>> bag(comm);
       for (auto& kv : vec) bag.async_insert(kv);
-      world.barrier();
-      { std::ostringstream o; o << "bag"; bag.for_all([&o](std::pair<uint64_t, HV>& kv) { o << " " << kv.first << ":" << kv.second.val; }); hc::out(o.str()); }
+      comm.barrier();
       g_trace = true;
-      auto res = ygm::container::reduce_by_key_map<uint64_t, HV>(bag, Red(), world);
+      auto res = ygm::container::reduce_by_key_map<uint64_t, HV>(bag, Red(), comm);
       g_trace = false;
       dump(res);
     }
   }
+  g_world = nullptr;
+}
+
+static void on_sub(ygm::comm& world, int split, const std::string& mode, script_t& s) {
+  int wr = world.rank(), ppn = world.layout().local_size(), nodes = world.layout().node_size();
+  int colour = split == 0 ? (world.layout().local_id() % 2)
+                          : (nodes > 1 ? world.layout().node_id() % 2 : (wr < world.size() / 2 ? 0 : 1));
+  (void)ppn;
+  MPI_Comm subc;
+  MPI_Comm_split(MPI_COMM_WORLD, colour, wr, &subc);
+  {
+    ygm::comm sub(subc);
+    scenario(sub, "sub", mode, s);
+  }   // the ygm::comm is destroyed before its MPI communicator is freed
+  MPI_Comm_free(&subc);
+}
+
+extern "C" int sim_main(int argc, char** argv) {
+  ygm::comm world(MPI_COMM_WORLD);
+  hc::open_out(world.rank());
+  std::string mode = argc > 1 ? argv[1] : "cset";
+  script_t s = read_script(argv[2]);
+  g_opid = argc > 3 ? atoi(argv[3]) : 0;
+  int subcomm = argc > 4 ? atoi(argv[4]) : 0, split = argc > 5 ? atoi(argv[5]) : 0;
+  if (subcomm == 1) on_sub(world, split, mode, s);
+  scenario(world, "world", mode, s);
+  if (subcomm == 2) on_sub(world, split, mode, s);
   return 0;
 }
